@@ -41,7 +41,7 @@ TCb == /\ l <= Len(Tr) /\ Ev.ev = "cb"
 Done(t, res) == call' = [call EXCEPT ![t].st = "lin", ![t].res = res]
 Lin(t) ==
   LET c == call[t]  k == KeyOf(t) IN
-  /\ c.st \in {"called", "announced"} /\ UNCHANGED <<id, l>>
+  /\ c.st \in {"called", "announced", "b1", "b2", "b3"} /\ UNCHANGED <<id, l>>
   /\ CASE c.op = "connect" /\ c.st = "called" ->
             Announce(k, Eps[t].cb) /\ call' = [call EXCEPT ![t].st = "announced"] /\ UNCHANGED expect
        [] c.op = "connect" /\ c.st = "announced" ->
@@ -61,6 +61,18 @@ Lin(t) ==
        [] c.op = "recvnb" /\ c.st = "called" ->
             \/ Recv(k) /\ Done(t, Head(chan[k])) /\ UNCHANGED expect
             \/ RecvNBEmpty(k) /\ Done(t, "<empty>") /\ UNCHANGED expect
+       \* a broadcast channel owns one socket per listed remote (Eps[t].keys, two of them): its constructor connects
+       \* them one after the other; its receive takes the head of ONE of its channels and says which
+       [] c.op = "bconnect" /\ c.st = "called" ->
+            Announce(Eps[t].keys[1], FALSE) /\ call' = [call EXCEPT ![t].st = "b1"] /\ UNCHANGED expect
+       [] c.op = "bconnect" /\ c.st = "b1" ->
+            CanSeePeer(Eps[t].keys[1]) /\ call' = [call EXCEPT ![t].st = "b2"] /\ UNCHANGED <<avars, expect>>
+       [] c.op = "bconnect" /\ c.st = "b2" ->
+            Announce(Eps[t].keys[2], FALSE) /\ call' = [call EXCEPT ![t].st = "b3"] /\ UNCHANGED expect
+       [] c.op = "bconnect" /\ c.st = "b3" ->
+            CanSeePeer(Eps[t].keys[2]) /\ Done(t, "ok") /\ UNCHANGED <<avars, expect>>
+       [] c.op = "brecv" /\ c.st = "called" ->
+            \E i \in 1..2 : Recv(Eps[t].keys[i]) /\ Done(t, ToString(i) \o ":" \o Head(chan[Eps[t].keys[i]])) /\ UNCHANGED expect
        [] c.op = "disconnect" /\ c.st = "called" ->
             Disconnect(k) /\ Done(t, "ok") /\ UNCHANGED expect
        [] OTHER -> FALSE
